@@ -223,6 +223,11 @@ func TestCheck(t *testing.T) {
 		for _, id := range []uint8{f.ConfigID + 1, f.ConfigID - 1, uint8(rng.IntN(256)) | 1 ^ f.ConfigID&1} {
 			if id != f.ConfigID {
 				try("wrong-config-id", rebuild(f.KDF, f.AEAD, id, f.Enc, f.Payload), b.keys, id)
+				// ... also when the server does hold a key with the id the hello names (in either order):
+				// the payload was still sealed to the other key, whose id the hello does not name
+				k3 := echgen.NewKey(id, b.key.PublicName, b.key.AEADs...)
+				try("wrong-config-id:id-of-another-held-key", rebuild(f.KDF, f.AEAD, id, f.Enc, f.Payload), append([]ech.Key{k3.TLSKey()}, b.keys...), id)
+				try("wrong-config-id:id-of-another-held-key", rebuild(f.KDF, f.AEAD, id, f.Enc, f.Payload), append(append([]ech.Key{}, b.keys...), k3.TLSKey()), id)
 			}
 		}
 		// enc truncated / extended
@@ -249,6 +254,65 @@ func TestCheck(t *testing.T) {
 			hh := h.Clone()
 			hh.Exts[ei].Data = append(append([]byte{}, hh.Exts[ei].Data...), hellogen.Bytes(rng, 1+rng.IntN(70))...)
 			try("trailing-bytes-in-ech-extension", hh.HelloRecord(0x0301), b.keys, len(hh.Exts[ei].Data)-len(h.Exts[ei].Data))
+		}
+		// a payload authenticated against something OTHER than "the whole outer hello with the payload zeroed":
+		// the extension carries t extra bytes after the payload vector and the tag is computed over the hello with the
+		// LAST len(payload) bytes of the extension body zeroed (the extra bytes and the payload's tail) - which is what
+		// a server gets when it locates the payload by counting back from the end of the extension. Such a hello does
+		// not open under the specified associated data, and its extra bytes are not covered by the tag.
+		if b.offer != nil {
+			of2 := echgen.Gen(rng, b.key, f.AEAD, echgen.DefaultOpts())
+			h2 := of2.Outer.Clone()
+			e2 := h2.Find(tlswire.ExtECH)
+			f2, _ := tlswire.ParseECHOuter(h2.Exts[e2].Data)
+			encoded := echgen.EncodeInner(of2.Inner, max(of2.RunStart, 0), of2.RunLen, of2.PadLen)
+			t := 1 + rng.IntN(min(40, len(f2.Payload)-17))
+			extra := hellogen.Bytes(rng, t)
+			snd, err := hpkex.Setup(f.AEAD, b.key.Priv.PublicKey().Bytes(), echgen.Info(b.key.Config), nil)
+			if err != nil {
+				r.Inconclusive("hpke setup: %v", err)
+				return
+			}
+			body := snd.Seal(nil, encoded) // the ciphertext body does not depend on the associated data, only the tag does
+			body = body[:len(body)-snd.Overhead()]
+			mk := func(payload []byte) {
+				h2.Exts[e2] = tlswire.ECHOuter(f2.KDF, f2.AEAD, f2.ConfigID, snd.Enc, payload)
+				h2.Exts[e2].Data = append(h2.Exts[e2].Data, extra...)
+			}
+			plen := len(body) + snd.Overhead()
+			mk(append(append([]byte{}, body...), make([]byte, snd.Overhead())...))
+			shifted := h2.Clone()
+			d := append([]byte{}, shifted.Exts[e2].Data...)
+			for k := len(d) - plen; k < len(d); k++ {
+				d[k] = 0
+			}
+			shifted.Exts[e2].Data = d
+			snd.SetSeq(0)
+			mk(snd.Seal(shifted.Body(), encoded))
+			try("authenticated-against-shifted-aad", h2.HelloRecord(0x0301), b.keys, t)
+		}
+		// sealed to held key A (A's public key, A's config in the info string, the hello as sent as associated data)
+		// but NAMING the config id of another held key B: the key it opens under is not the one the client named
+		if b.offer != nil {
+			of2 := echgen.Gen(rng, b.key, f.AEAD, echgen.DefaultOpts())
+			encoded := echgen.EncodeInner(of2.Inner, max(of2.RunStart, 0), of2.RunLen, of2.PadLen)
+			kb := echgen.NewKey(b.key.ID+1+uint8(rng.IntN(254)), b.key.PublicName, b.key.AEADs...)
+			for order := 0; order < 2; order++ {
+				h2 := of2.Outer.Clone()
+				e2 := h2.Find(tlswire.ExtECH)
+				h2.Exts = append(h2.Exts[:e2:e2], h2.Exts[e2+1:]...)
+				snd, err := hpkex.Setup(f.AEAD, b.key.Priv.PublicKey().Bytes(), echgen.Info(b.key.Config), nil)
+				if err != nil {
+					r.Inconclusive("hpke setup: %v", err)
+					return
+				}
+				echgen.SealInto(h2, e2, snd, f.AEAD, kb.ID, snd.Enc, encoded)
+				ks := []ech.Key{b.key.TLSKey(), kb.TLSKey()}
+				if order == 1 {
+					ks[0], ks[1] = ks[1], ks[0]
+				}
+				try("sealed-to-held-key-A-naming-held-key-B", h2.HelloRecord(0x0301), ks, fmt.Sprintf("order%d", order))
+			}
 		}
 		// transplant: payload+enc of this hello inside another outer hello for the same key
 		if b.offer != nil {
